@@ -1,6 +1,6 @@
-(* C04: judges for the direct-call correspondence of the break-value resolution. *)
+(* C04: judges for the direct-call correspondence of the break-value resolution (independent of coq/gen). *)
 From Coq Require Import QArith List String Bool.
-Require Import WV.base.Py WV.gen.GenBlock WV.model.Frag2.
+Require Import WV.model.Frag2.
 Import ListNotations.
 Open Scope string_scope.
 Open Scope nat_scope.
@@ -15,10 +15,6 @@ Definition brk_rank (v : brk) : nat :=
   | BAuto => 0 | BAvoid | BAvoidPage | BAvoidColumn => 1 | BColumn => 2 | BPage => 3
   | BLeft | BRight | BRecto | BVerso => 4
   end.
-(* the interpreter on the body regenerated from /repo *)
-Definition fold_translated (l : list brk) : string :=
-  run real_ops break_fold_body [("values", VList (map (fun b => VStr (bname b)) l))]
-      (fun _ r => match r with Some (VStr s) => s | _ => "?" end) (fun m => m).
 (* specification from the property text: the strongest value wins; among equals of the top rank the LAST
    left/right/recto/verso, otherwise the FIRST page / column; avoid values combine *)
 Definition spec_ok (l : list brk) (out : brk) : bool :=
@@ -29,12 +25,10 @@ Definition spec_ok (l : list brk) (out : brk) : bool :=
   | 1%nat => if existsb (fun v => avoid v) l then avoid out else true
   | _ => true
   end.
-(* bit 0: Frag2.fold_breaks <> implementation; bit 1: spec fails on the implementation's answer;
-   bit 2: translated source <> implementation *)
+(* bit 0: Frag2.fold_breaks <> implementation; bit 1: spec fails on the implementation's answer *)
 Definition fold_judge (c : list brk * brk) : nat :=
   let '(l, out) := c in
-  ((if brk_eqb (fold_breaks l) out then 0 else 1) + (if spec_ok l out then 0 else 2) +
-   (if String.eqb (fold_translated l) (bname out) then 0 else 4))%nat.
+  ((if brk_eqb (fold_breaks l) out then 0 else 1) + (if spec_ok l out then 0 else 2))%nat.
 (* force/avoid predicates: (value, in_column, force answer, avoid answer) *)
 Definition pred_judge (c : brk * bool * bool * bool) : nat :=
   let '(v, incol, f, a) := c in
